@@ -639,6 +639,100 @@ func main {
 	println(total, label, weight, scale, len(table), last, depth, first, bump(2), acc.n)
 }
 `,
+	// #wa:generic alternatives, #wa:operator, #wa:export with a custom name, closures
+	// in a table, method values, several named types over one underlying type
+	`#wa:generic joinInts joinF
+func join(a: string, b: string) => string {
+	return a + "+" + b
+}
+
+func joinInts(a: string, b: []int) => string {
+	return a + "#" + string(rune('0'+len(b)))
+}
+
+func joinF(a: string, f: f64) => string {
+	if f > 1 {
+		return a + ">1"
+	}
+	return a + "<=1"
+}
+
+#wa:operator + Vec_add
+#wa:operator - Vec_sub
+type Vec :struct {
+	x, y: int
+	tag:  string
+}
+
+func Vec_add(a, b: Vec) => Vec { return Vec{a.x + b.x, a.y + b.y, a.tag + b.tag} }
+func Vec_sub(a, b: Vec) => Vec { return Vec{a.x - b.x, a.y - b.y, a.tag} }
+
+#wa:generic ScaleF
+func Vec.Scale(k: int) => *Vec {
+	this.x *= k
+	this.y *= k
+	return this
+}
+
+func Vec.ScaleF(k: f64) => *Vec {
+	this.x = int(f64(this.x) * k)
+	this.y = int(f64(this.y) * k)
+	return this
+}
+
+type Celsius :f64
+type Kelvin :f64
+type Miles :int
+type Km :int
+
+func Celsius.K() => Kelvin { return Kelvin(*this + 273.15) }
+func Miles.Km() => Km { return Km(*this * 8 / 5) }
+
+#wa:export exported_sum
+func sum3(a, b, c: i32) => i32 {
+	return a + b + c
+}
+
+global ops = []func(a, b: int) => int{
+	func(a, b: int) => int { return a + b },
+	func(a, b: int) => int { return a * b },
+	func(a, b: int) => int { return a - b },
+}
+
+func main {
+	println(join("a", "b"), join("a", []int{1, 2}), join("a", 2.5))
+	va, vb, vc := Vec{1, 2, "p"}, Vec{3, 4, "q"}, Vec{1, 1, "r"}
+	vs := va + vb
+	v := vs - vc
+	v.Scale(3).Scale(0.5)
+	println(v.x, v.y, v.tag)
+	c: Celsius = 20
+	m: Miles = 5
+	var boxes: []interface{} = []interface{}{c, c.K(), m, m.Km(), v}
+	n := 0
+	for _, b := range boxes {
+		switch b.(type) {
+		case Celsius:
+			n += 1
+		case Kelvin:
+			n += 10
+		case Miles:
+			n += 100
+		case Km:
+			n += 1000
+		case Vec:
+			n += 10000
+		}
+	}
+	f := v.Scale
+	f(2)
+	acc := 0
+	for i, op := range ops {
+		acc += op(i+2, 3)
+	}
+	println(n, v.x, acc, sum3(1, 2, 3))
+}
+`,
 }
 
 const appleProgram = `
